@@ -250,6 +250,74 @@ def several_stores_one_association(ts, datasets, rng, mem, workdir):
     return out, err
 
 
+def concurrent_stores(ts, rng, nclients=3, per_client=4):
+    """Several requesters store to ONE entity at the same time; the handler's status depends on the instance.  Each
+    sender must be told the status returned for ITS instance.  Returns observation records."""
+    import threading
+    handler = Handler()
+    lock = threading.Lock()
+    seen = {}
+    srv = R.server_ae(ae_mod.AE, 'SRV', 0, supported_ts=[ts], max_pdu_length=16384)
+    srv.add_scp(sc.storage_scp)
+
+    def on_store(context, ds):
+        f = pydicom.dcmread(ds)
+        raw_pos = 132 + 12 + f.file_meta.FileMetaInformationGroupLength
+        ds.seek(0)
+        raw = ds.read()
+        inst = str(f.SOPInstanceUID)
+        ci, n = int(inst.split('.')[-2]), int(inst.split('.')[-1])
+        code = [0x0000, 0xB000, 0xB007, 0xA700][(ci + (n - 4 * ci)) % 4 if False else (2 * ci + n) % 4]       # differs between requesters at the same step
+        with lock:
+            seen[inst] = {'called': True, 'd': tok(raw[raw_pos:]), 'cls': str(f.file_meta.MediaStorageSOPClassUID), 'inst': inst,
+                          'readable': True, 'ts': str(f.file_meta.TransferSyntaxUID), 'status': code}
+        return statuses.Status(code, pynetdicom2.dimsemessages.CStoreRSPMessage)
+    srv.on_receive_store = on_store
+    srv.timeout = 60
+    out = []
+    barrier = threading.Barrier(nclients)
+    results = {}
+
+    def client(i):
+        cl = ae_mod.ClientAE('CL%d' % i, supported_ts=[ts], max_pdu_length=16384).add_scu(sc.storage_scu, [CT])
+        cl.timeout = 60
+        res = []
+        results[i] = res
+        try:
+            with cl.request_association(REMOTE) as assoc:
+                svc = assoc.get_scu(CT)
+                barrier.wait(30)
+                for k in range(per_client):
+                    ds = make_dataset(random.Random(1000 * i + k), 30 + 10 * i, '1.2.3.66.%d.%d' % (i, 4 * i + k))
+                    st = svc(ds, k + 1)
+                    res.append((ds, int(st)))
+        except Exception as exc:      # noqa
+            res.append(('error', '%s: %s' % (type(exc).__name__, exc)))
+    with R.Net() as net:
+        net.register(ADDR, srv)
+        ths = [threading.Thread(target=client, args=(i,), daemon=True) for i in range(nclients)]
+        for t in ths:
+            t.start()
+        for t in ths:
+            t.join(120)
+        net.wait_all(60)
+    errs = []
+    for i, res in sorted(results.items()):
+        for item in res:
+            if item[0] == 'error':
+                errs.append(item[1])
+                continue
+            ds, st = item
+            inst = str(ds.SOPInstanceUID)
+            data = dsutils.encode(ds, ts.is_implicit_VR, ts.is_little_endian)
+            g = seen.get(inst)
+            out.append({'sent': {'d': tok(data), 'cls': CT, 'inst': inst}, 'tsNegotiated': str(ts), 'handlerStatus': g['status'] if g else -1,
+                        'scuStatus': st, 'maxA': 16384, 'maxB': 16384, 'dirMode': False, 'pdataA2B': [],
+                        'got': {k: (g[k] if g else {'called': False, 'd': 0, 'readable': False}.get(k, '')) for k in ('called', 'd', 'cls', 'inst', 'readable', 'ts')},
+                        'before': [], 'after': []})
+    return out, errs
+
+
 def main(tier='quick'):
     v = Verdict('C15', tier)
     rng = random.Random(seed())
@@ -374,6 +442,44 @@ def main(tier='quick'):
                 v.report({'site': 'whole-stack', 'clause': 'store-raised', 'exc': err.split(':')[0]},
                          'storage_scu raised %s (several stores on one association, ts %s, reception %s)' % (err, ts, 'memory' if mem else 'file'),
                          replay={'ts': str(ts), 'several': True})
+        # several requesters at once, statuses differing per instance
+        for k in range(2 if tier == 'quick' else 10):
+            if n_err >= 3:
+                break
+            ts = TSS[k % 3]
+            obs_list, errs = concurrent_stores(ts, rng)
+            for e in errs:
+                n_err += 1
+                v.report({'site': 'whole-stack', 'clause': 'store-raised', 'exc': e.split(':')[0]}, 'storage_scu raised %s (concurrent requesters, ts %s)' % (e, ts), replay={'ts': str(ts), 'concurrent': True})
+            for obs in obs_list:
+                cases.append(obs)
+                metas.append({'ts': str(ts), 'dir': False, 'maxA': 16384, 'maxB': 16384, 'size': 'concurrent requesters', 'from_file': False,
+                              'outcome': obs['handlerStatus'], 'repeat': False, 'roles': 'scp'})
+        # the requester proposes all three syntaxes, the provider supports exactly one of them
+        for k in range(3):
+            if n_err >= 3:
+                break
+            ts = TSS[k]
+            handler3 = Handler()
+            srv3 = R.server_ae(ae_mod.AE, 'SRV', 0, supported_ts=[ts], max_pdu_length=16384)
+            srv3.add_scp(sc.storage_scp)
+            srv3.on_receive_store = handler3
+            srv3.timeout = 60
+            cl3 = ae_mod.ClientAE('CL', supported_ts=TSS, max_pdu_length=16384).add_scu(sc.storage_scu, [CT])
+            cl3.timeout = 60
+            with R.Net() as net:
+                nets.append(net)
+                net.register(ADDR, srv3)
+                obs, err, herr = one_store(net, srv3, handler3, cl3, make_dataset(rng, 300, None), ts, bool(k % 2), work, rng, False, work)
+                meta = {'ts': str(ts), 'dir': False, 'maxA': 16384, 'maxB': 16384, 'size': 300, 'from_file': bool(k % 2), 'outcome': 0,
+                        'repeat': False, 'roles': 'scp', 'requester_proposes': 'all three syntaxes'}
+                if err:
+                    n_err += 1
+                    v.report({'site': 'whole-stack', 'clause': 'store-raised', 'exc': err.split(':')[0]}, 'storage_scu raised %s (%r)' % (err, meta), replay=meta)
+                if herr:
+                    v.report({'site': 'whole-stack', 'clause': 'received-file-unreadable'}, 'handler could not read the file: %s (%r)' % (herr, meta), replay=meta)
+                cases.append(obs)
+                metas.append(meta)
         # a loopback TCP sample on an ephemeral port (the repository's own tests use a fixed port)
     finally:
         tap.__exit__(None, None, None)
